@@ -324,3 +324,105 @@ def r6(cx):
             cx.passed(mk, "recover-before-serving:%s" % name, [mb.sp(sb)])
         else:
             cx.violation(mk, "recover-before-serving:%s" % name, "%s: the ingester can start serving before ensure_wal succeeded (acknowledged writes without WAL; unreplayed entries overtaken)" % mb.sp(sb), [mb.sp(sb)])
+
+
+@rule("C01", "R7", "WAL truncation never removes an unflushed entry: truncate_before deletes a segment only where last_seq < seq (strict), "
+      "and every caller passes the flushed mark or the mark + 1, nothing larger")
+def r7(cx):
+    ck, b = cx.need_body(WAL + "truncate_before")
+    rms = M.find_calls(b, lambda c: c.endswith("fs::remove_file"))
+    if not cx.floor("remove_file sites in truncate_before", len(rms), 1, ck):
+        return
+    last_seq = lambda o: M.has_call(o, lambda c: c == "ingester::wal::last_sequence_for_segment")
+    seq_par = lambda o: any((x[0] == "upvar" and x[1] == "seq") or (x[0] == "arg" and x[1] == 2) for x in o)
+    e, u = M.edges_implying(b, "lt", last_seq, seq_par)
+    for rb in rms:
+        if e and b.dominated_by_edges(rb, e):
+            cx.passed(ck, "strictly-below-argument", [b.sp(rb)])
+        else:
+            cx.violation(ck, "strictly-below-argument", "%s: a segment whose last entry equals the argument can be deleted; recovery calls truncate_before(flushed + 1), "
+                         "so the first unflushed entry's segment is removed right after its replay into memory" % b.sp(rb), [b.sp(rb)])
+    sites = cx.prog.sites(lambda c: c == WAL + "truncate_before")
+    cx.floor("truncate_before call sites", len(sites), 2)
+    for k, c in sites:
+        bb = cx.body(k)
+        org = M.operand_origins(bb, bb.term(c["b"])["args"][1], at=(c["b"], M.T))
+        mark = M.has_call(org, lambda x: x == "ingester::wal::load_flushed_seq" or (x.endswith("::load") and "atomic" in x))
+        consts = {o[1] for o in org if o[0] == "const"}
+        bins = {o[1][2] for o in org if o[0] == "bin"}
+        ok = mark and consts <= {"1"} and bins <= {"Add", "AddWithOverflow"}
+        if ok:
+            cx.passed(k, "argument-at-most-mark-plus-one", [c["sp"]], "mark%s" % (" + 1" if consts else ""))
+        else:
+            cx.violation(k, "argument-at-most-mark-plus-one", "%s: truncate_before receives something other than the flushed mark or mark + 1 (constants %s, operators %s)"
+                         % (c["sp"], sorted(consts), sorted(bins)), [c["sp"]])
+
+
+MAXMIN = {"std::cmp::Ord::max", "std::cmp::Ord::min", "std::cmp::max", "std::cmp::min", "core::cmp::Ord::max", "core::cmp::Ord::min"}
+
+
+@rule("C01", "R8", "recovery's watermark follows the buffer: in ensure_wal the value that reaches last_wal_seq.store may take an entry's sequence number "
+      "only after that entry's batches were appended (no buffer append / flush reachable from the update within the same entry iteration)")
+def r8(cx):
+    ck, b = cx.need_body(I + "ensure_wal")
+    stores = [x for x in M.find_calls(b, lambda c: c.endswith("::store") and "atomic" in c)
+              if M.has_field(M.operand_origins(b, b.term(x)["args"][0], at=(x, M.T)), None, ".last_wal_seq")]
+    if not cx.floor("last_wal_seq.store sites in ensure_wal", len(stores), 1, ck):
+        return
+    # locals carrying the watermark
+    wm = set()
+    for x in stores:
+        a = b.term(x)["args"][1]
+        if a["k"] in ("copy", "move"):
+            wm.add(a["pl"]["l"])
+    # follow copies backwards to user variables
+    changed = True
+    while changed:
+        changed = False
+        for l in list(wm):
+            for (bi, si, k, pay) in b.defs().get(l, []):
+                if k == "assign" and pay["rv"]["k"] == "use" and pay["rv"]["o"]["k"] in ("copy", "move") and not pay["rv"]["o"]["pl"].get("p"):
+                    s = pay["rv"]["o"]["pl"]["l"]
+                    if s not in wm and b.name_of(s) is not None:
+                        wm.add(s)
+                        changed = True
+    # outer iteration over the replayed entries
+    outer = []
+    for nb in M.find_calls(b, lambda c: c == "std::iter::Iterator::next"):
+        if M.has_call(M.operand_origins(b, b.term(nb)["args"][0], at=(nb, M.T)), lambda c: c == WAL + "read_entries_after"):
+            org = M.operand_origins(b, b.term(nb)["args"][0], at=(nb, M.T), adapters=M.PURE_ADAPTERS - {"ingester::wal::WalEntry::batches"})
+            if not M.has_call(org, lambda c: c == "ingester::wal::WalEntry::batches"):
+                outer.append(nb)
+    if not outer:
+        cx.violation(ck, "anchor-missing:entry-loop", "cannot find the loop over the replayed WAL entries in ensure_wal", [])
+        return
+    sinks = set(M.find_calls(b, lambda c: c == BUF + "append" or c == FLUSH))
+    n = 0
+    is_entry_seq = lambda org: any(o[0] == "call" and o[1][1] == WAL + "read_entries_after" and M.strip_unwraps(o[2]).endswith(".seq") for o in org)
+    for l in sorted(x for x in wm if b.name_of(x) is not None):
+        for (bi, si, k, pay) in b.defs().get(l, []):
+            if k == "assign":
+                rv = pay["rv"]
+                if rv["k"] == "use" and rv["o"]["k"] in ("copy", "move") and not rv["o"]["pl"].get("p") and rv["o"]["pl"]["l"] in wm:
+                    continue  # plain copy between watermark locals
+                org = set()
+                for key in ("o", "a", "b"):
+                    if key in rv and isinstance(rv[key], dict) and rv[key].get("k"):
+                        org |= M.operand_origins(b, rv[key], at=(bi, si), adapters=M.PURE_ADAPTERS | MAXMIN)
+            elif k == "call":
+                org = set()
+                for a in pay["args"]:
+                    org |= M.operand_origins(b, a, at=(bi, M.T))
+            else:
+                continue
+            if not is_entry_seq(org):
+                continue
+            n += 1
+            reach = b.reachable(bi, removed_blocks=set(outer))
+            hit = sorted(reach & sinks)
+            if hit:
+                cx.violation(ck, "watermark-before-append", "%s: the recovery watermark takes entry.seq before the entry's batches are buffered; the schema-change flush at %s then "
+                             "persists a flushed mark covering an entry that exists only in memory" % (b.sp(bi, si), b.sp(hit[0])), [b.sp(bi, si), b.sp(hit[0])])
+            else:
+                cx.passed(ck, "watermark-before-append", [b.sp(bi, si)], "update is after the entry's appends")
+    cx.floor("watermark updates from entry.seq", n, 1, ck)
